@@ -20,3 +20,18 @@ pub fn self_test() -> Vec<String> {
     e.extend(logint::self_test());
     e
 }
+
+/// Entry point of the libFuzzer targets (fuzz/fuzz_targets/*.rs).
+pub fn fuzz_entry(id: &str, data: &[u8]) {
+    use std::sync::OnceLock;
+    static REG: OnceLock<(Vec<Box<dyn DynProp>>, findings::Findings)> = OnceLock::new();
+    let (props, f) = REG.get_or_init(|| {
+        // libfuzzer-sys installs an aborting panic hook; replace it so that library
+        // panics can be caught and reported as violations with a message.
+        runner::install_quiet_panic_hook();
+        (props::all(), findings::Findings::load(&runner::verif_root().join("known_findings.txt")))
+    });
+    if let Some(p) = props.iter().find(|p| p.id() == id) {
+        p.fuzz(data, f);
+    }
+}
